@@ -408,6 +408,10 @@ CO_ERR COSdoUploadSegmented(CO_SDO *srv)
         COSdoAbort(srv, CO_SDO_ERR_CMD);
         return (CO_ERR_SDO_ABORT);
     }
+    if (CO_IS_READ(srv->Obj->Key) == 0) {
+        COSdoAbort(srv, CO_SDO_ERR_RD);
+        return (CO_ERR_SDO_ABORT);
+    }
 
     cmd = CO_GET_BYTE(srv->Frm, 0);
     if (((cmd >> 4) & 0x01) != srv->Seg.TBit) {
@@ -508,6 +512,10 @@ CO_ERR COSdoDownloadSegmented(CO_SDO *srv)
 
     if (srv->Obj == 0) {
         COSdoAbort(srv, CO_SDO_ERR_CMD);
+        return (CO_ERR_SDO_ABORT);
+    }
+    if (CO_IS_WRITE(srv->Obj->Key) == 0) {
+        COSdoAbort(srv, CO_SDO_ERR_WR);
         return (CO_ERR_SDO_ABORT);
     }
 
@@ -809,6 +817,11 @@ CO_ERR COSdoUploadBlock(CO_SDO *srv)
 
     if (srv->Obj == 0) {
         COSdoAbort(srv, CO_SDO_ERR_CMD);
+        return (CO_ERR_SDO_ABORT);
+    }
+    if (CO_IS_READ(srv->Obj->Key) == 0) {
+        COSdoAbort(srv, CO_SDO_ERR_RD);
+        COSdoAbortReq(srv);
         return (CO_ERR_SDO_ABORT);
     }
 
